@@ -344,7 +344,7 @@ static ev_src_t *find_pid_src(int m, unsigned long long key) {
     return k.pid_src.pid.pid ? m_bst_find(modptr[m]->srcs[M_SRC_TYPE_PID], &k) : NULL;
 }
 static int closed_ufds(void) { int n = 0; for (int i = 0; i < NUFD; i++) n += ufd_closed[i]; return n; }
-static void wait_readable(int fd) { struct pollfd p = { fd, POLLIN, 0 }; poll(&p, 1, 15000); }   /* returns as soon as readable; the bound only matters on an overloaded machine */
+static void wait_readable(int fd) { struct pollfd p = { fd, POLLIN, 0 }; poll(&p, 1, 3000); }   /* returns as soon as readable; the bound only matters when the expected readiness never comes (a changed library) or on an overloaded machine (disagreeing cases are run again alone) */
 
 static void do_env(call_t *c) {
     const char *o = c->tok[0];
